@@ -22,6 +22,12 @@ CORPUS_SRC = [
     'int f(int x){ }',
     'int f(int x,int y){ do { x = x + y; } while (x < 10); }',
     'int f(int x,int y){ assert(x < 1); while (x < y) { assume(y > 0); x = y + y; } assert(x == y); }',
+    # effect-free branches and bodies: the skipped side of an if is the identity, not nothing
+    'int f(int c,int x,int y){ if (c < 0) { } else { x = y; } }',
+    'int f(int c,int x,int y,int z){ if (c < 0) ; else { x = y + z; } y = x; }',
+    'int f(int c,int x,int y){ if (c < 0) { x = x; } else { x = y * y; } if (c) { y = x; } else { } }',
+    'int f(int c,int x,int y){ while (c < 1) { } while (c < 2) { if (x < y) { } else { x = y; } } do { } while (c); }',
+    'int f(int n,int x,int y){ int i; for (i = 0; i < n; i++) { } for (i = 0; i < n; i++) { if (x) ; else x = x + y; } }',
     # closure that needs a late round: one heavy edge reached through a 3-step chain of copies (if-chain body)
     'int f(int a,int b,int c,int d,int t){ while (t) { if (t) { c = b * b; } else if (t) { d = c; c = a; b = a; } else if (t) { d = a; } else { d = b; } } }',
     # shift register: the k-th stage shows only in the k-th power of the body relation
@@ -125,6 +131,33 @@ def shift_loop(rng, plain=False):
     return f'int f(int a,int b,int c,int d,int e,int g,int t,int n,int i){{ {loop} }}'
 
 
+def dependent_family(rng):
+    """a counted loop with 1-3 accumulators (`z = z + b`: the derivation succeeds at some choices only) and
+    variables computed from them (`out = z * z`, `out = z + w`, `out = z`), names drawn at random so that the
+    restricting source is first / last / in the middle of the (sorted) variable list; 2-6 sources per dependent"""
+    names = rng.sample(['a', 'b', 'c', 'd', 'e', 'g', 'h', 'k', 'm', 'p', 'q', 'r', 's', 't', 'u', 'v', 'w', 'z'], 9)
+    guard, accs, bases, deps = names[0], names[1:1 + rng.randint(1, 3)], names[4:6], names[6:6 + rng.randint(1, 3)]
+    stmts = [f'{a} = {a} {rng.choice("+*")} {rng.choice(bases)};' for a in accs]
+    for d in deps:
+        k = rng.random()
+        a1 = rng.choice(accs)
+        if k < 0.4:
+            stmts.append(f'{d} = {a1} * {a1};')
+        elif k < 0.7:
+            stmts.append(f'{d} = {a1} + {rng.choice(accs + bases)};')
+        elif k < 0.85:
+            stmts.append(f'{d} = {a1};')
+        else:
+            stmts.append(f'{d} = {rng.choice(bases)} * {a1};')
+    if rng.random() < 0.5 and len(deps) > 1:
+        stmts.append(f'{deps[0]} = {deps[0]} + {deps[1]};')
+    body = ' '.join(stmts)
+    params = ','.join('int ' + n for n in sorted(set([guard] + accs + bases + deps)))
+    if rng.random() < 0.75:
+        return f'int f({params}){{ int i; for (i = 0; i < {guard}; i++) {{ {body} }} }}'
+    return f'int f({params}){{ while ({guard}) {{ {body} }} }}'
+
+
 def gen_sources(ctx, n, opts_fn):
     rng = ctx.rng
     out = list(CORPUS_SRC)
@@ -132,6 +165,8 @@ def gen_sources(ctx, n, opts_fn):
         out.append(chain_loop(rng))
     for _ in range(max(6, n // 5)):
         out.append(shift_loop(rng))
+    for _ in range(max(6, n // 6)):
+        out.append(dependent_family(rng))
     for i in range(n):
         src, g = gen_function(rng, opts_fn(i))
         out.append(src)
